@@ -295,6 +295,8 @@ def extra(ctx):
   if missing:
     raise InfraError(f'generator missed promised classes: {missing}')
   c08.export_stats(ctx)
+  if c08.verdict_pending():
+    return          # a verdict is being reported: the counters of the comparison stages are not enforced (see c08.verdict_pending)
   inside = c08.STATS.get('assign_batched_aligned_theorem', {}).get('aligned: side-conditions hold', 0)
   if inside < 100:
     raise InfraError(f'only {inside} generated cases were inside the domain of C08_assign_batched_aligned_partial')
@@ -351,7 +353,11 @@ def compare_any_source(impl, model):
 
 def compare(impl, model):
   d = c08.compare(impl, model)
-  return d if d is not None else compare_any_source(impl, model)
+  if d is None:
+    d = compare_any_source(impl, model)
+    if d is not None:
+      c08._stat('verdict', 'disagreement')
+  return d
 
 
 def run_impl(case):
@@ -384,6 +390,14 @@ def dec_a(x):
 
 
 def oracle(case, obs):
+  what = _oracle(case, obs)
+  if what is not None and isinstance(obs, dict):
+    # c08.oracle marked the observation with C08's finding classes; C12 has its own (F5)
+    obs['oracle_new_failure'] = c08.mark_new_failure(case, what, finding)
+  return what
+
+
+def _oracle(case, obs):
   what = c08.oracle(case, obs)
   if what is not None:
     ref = obs.get('pyref') or {}
